@@ -262,6 +262,31 @@ M('c11-prev-skipped', 'C11', 'src/containers/qhashtbl.c',
   "        if (obj->hash == hash && !strcmp(obj->name, name)) {\n            // adjust link", "        if (obj->hash != hash) continue;\n        if (!strcmp(obj->name, name)) {\n            // adjust link",
   'S3', 'qhashtbl_remove', 'continue skips the predecessor update: intermediate nodes leak')
 
+# ---- C10 -------------------------------------------------------------------------------------
+M('c10-resize-zero-objsize', 'C10', 'src/containers/qvector.c',
+  "        vector->max = 0;\n        vector->num = 0;\n\n        vector->unlock(vector);", "        vector->max = 0;\n        vector->num = 0;\n        vector->objsize = 0;\n\n        vector->unlock(vector);",
+  'V1', 'qvector_resize', 'element size cleared by resize(0)')
+M('c10-getat-signed-compare', 'C10', 'src/containers/qvector.c',
+  "static void *get_at(qvector_t *vector, int index, bool newmem) {\n    if (index < 0) {\n        index += vector->num;\n    }\n    if (index >= vector->num) {",
+  "static void *get_at(qvector_t *vector, int index, bool newmem) {\n    if (index < 0) {\n        index += vector->num;\n    }\n    if (index >= (int) vector->num) {",
+  'IDX', 'get_at', 'range check moved to the signed domain: negative indexes pass')
+M('c10-removeat-le', 'C10', 'src/containers/qvector.c',
+  "static bool remove_at(qvector_t *vector, int index) {\n    if (index < 0) {\n        index += vector->num;\n    }\n    if (index >= vector->num) {",
+  "static bool remove_at(qvector_t *vector, int index) {\n    if (index < 0) {\n        index += vector->num;\n    }\n    if (index > vector->num) {",
+  'IDX', 'remove_at', 'off-by-one upper bound')
+M('c10-addat-no-upper', 'C10', 'src/containers/qvector.c',
+  "    if (index > vector->num) {\n        vector->unlock(vector);\n        errno = ERANGE;\n        return false;\n    }\n", "", 'IDX', 'qvector_addat', 'insertion index not range-checked')
+M('c10-popat-no-dec', 'C10', 'src/containers/qvector.c',
+  "        return NULL;\n    }\n    vector->num--;\n\n    vector->unlock(vector);\n    return data;", "        return NULL;\n    }\n\n    vector->unlock(vector);\n    return data;",
+  'VC', 'qvector_popat', 'pop does not decrement the count')
+M('c10-remove-dec-on-failure', 'C10', 'src/containers/qvector.c',
+  "    bool result = remove_at(vector, index);\n    if (result) {\n        vector->num--;\n    }", "    bool result = remove_at(vector, index);\n    vector->num--;",
+  'VC', 'qvector_removeat', 'count decremented even when nothing was removed')
+M('c11-vector-index-signed', 'C11', 'src/containers/qvector.c',
+  "static void *get_at(qvector_t *vector, int index, bool newmem) {\n    if (index < 0) {\n        index += vector->num;\n    }\n    if (index >= vector->num) {",
+  "static void *get_at(qvector_t *vector, int index, bool newmem) {\n    int num = (int) vector->num;\n    if (index < 0) {\n        index += num;\n    }\n    if (index >= num) {",
+  'IDX', 'get_at', 'signed comparison lets an index below -n through: read before the buffer')
+
 
 def run_selftest(prop, rep, rule_fn, config='cmake-release'):
     """Apply every mutant of `prop` to a scratch copy, run rule_fn(prog, report) on it, and
